@@ -164,6 +164,7 @@ type Cmd struct {
 	Fill      bool   `json:"fill,omitempty"`
 	RandMax   int    `json:"rand_max,omitempty"`
 	SwapBases bool   `json:"swap_bases,omitempty"` // src base = dst dir and vice versa
+	DstIsSrc  bool   `json:"dst_is_src,omitempty"` // the destination base is the source base (local directory or URL alike)
 	BaseStyle string `json:"base_style,omitempty"` // spelling of local base directories: "", "slash", "dot", "dslash"
 }
 
@@ -215,9 +216,15 @@ func buildCommand(e *Env, c Cmd, now int64, tag string) (cmd.Command, string, er
 	if c.SwapBases {
 		srcBase, dstBase = dstBase, srcBase
 	}
+	if c.DstIsSrc {
+		dstBase = srcBase
+	}
 	srcBase, dstBase = spellBase(srcBase, c.BaseStyle), spellBase(dstBase, c.BaseStyle)
 	if c.SrcRemote {
 		srcBase = simURL
+		if c.DstIsSrc {
+			dstBase = simURL
+		}
 	}
 	if c.DstRemote {
 		dstBase = simURL
